@@ -77,7 +77,7 @@ def chunks(cuts, data: bytes):
     return out
 
 
-def _proto(pb):
+def _proto(pb, lim=64):
     from twisted.internet.testing import StringTransport
     from twisted.spread import banana
     got = []
@@ -90,12 +90,14 @@ def _proto(pb):
     t = StringTransport()
     b.makeConnection(t)
     b._selectDialect(b"pb" if pb else b"none")
+    if lim != 64:
+        b.setPrefixLimit(lim)           # the per-connection prefix limit (64 unless changed)
     t.clear()
     return b, t, got
 
 
-def _feed(pb, pieces) -> str:
-    b, t, got = _proto(pb)
+def _feed(pb, pieces, lim=64) -> str:
+    b, t, got = _proto(pb, lim)
     err = "ok"
     for c in pieces:
         try:
@@ -109,19 +111,20 @@ def _feed(pb, pieces) -> str:
 def impl(case) -> str:
     from twisted.spread import banana
     k = case["kind"]
+    lim = case.get("lim", 64)
     if k == "rt":
-        b, t, _ = _proto(case["pb"])
+        b, t, _ = _proto(case["pb"], lim)
         try:
             b.sendEncoded(to_py(case["e"]))
         except banana.BananaError:
             return "E:BananaError" + ("" if t.value() == b"" else "+partial-write")
         data = t.value()
-        return data.hex() + "|" + _feed(case["pb"], chunks(case["cuts"], data))
+        return data.hex() + "|" + _feed(case["pb"], chunks(case["cuts"], data), lim)
     if k == "raw":
-        return _feed(case["pb"], chunks(case["cuts"], bytes.fromhex(case["data"])))
+        return _feed(case["pb"], chunks(case["cuts"], bytes.fromhex(case["data"])), lim)
     if k == "hist":
         # several sendEncoded calls on ONE connection; the transport is observed after every call
-        b, t, _ = _proto(case["pb"])
+        b, t, _ = _proto(case["pb"], lim)
         flags = ""
         for e in case["es"]:
             before = len(t.value())
@@ -131,7 +134,7 @@ def impl(case) -> str:
             except banana.BananaError:
                 flags += "R" if len(t.value()) == before else "W"       # W: a refused call wrote something
         data = t.value()
-        return flags + "|" + data.hex() + "|" + _feed(case["pb"], chunks(case["cuts"], data))
+        return flags + "|" + data.hex() + "|" + _feed(case["pb"], chunks(case["cuts"], data), lim)
     if k == "b128":
         out = []
         banana.int2b128(case["n"], out.append)
@@ -154,15 +157,16 @@ def ref_b128(n):
     return bytes(out)
 
 
-def ref_encode(o, pb):
+def ref_encode(o, pb, lim=64):
+    """lim = the prefix limit both peers use: an integer is sendable iff it needs at most lim base-128 digits"""
     if o is None or isinstance(o, Unsendable):
         raise OverflowError
     if isinstance(o, (list, tuple)):
         if len(o) > SIZE_LIMIT:
             raise OverflowError
-        return ref_b128(len(o)) + b"\x80" + b"".join(ref_encode(x, pb) for x in o)
+        return ref_b128(len(o)) + b"\x80" + b"".join(ref_encode(x, pb, lim) for x in o)
     if isinstance(o, int):
-        if not -LONG <= o <= LONG:
+        if len(ref_b128(abs(o))) > lim:
             raise OverflowError
         if o >= 0:
             return ref_b128(o) + (b"\x81" if o < 2 ** 31 else b"\x85")
@@ -178,9 +182,10 @@ def ref_encode(o, pb):
 
 def oracle(case, obs):
     k = case["kind"]
+    lim = case.get("lim", 64)
     if k == "rt":
         try:
-            want = ref_encode(to_py(case["e"]), case["pb"])
+            want = ref_encode(to_py(case["e"]), case["pb"], lim)
         except OverflowError:
             if obs != "E:BananaError":
                 return Failure(case, f"value outside the limits was not refused cleanly: {obs[:80]}", "encode-not-refused")
@@ -200,7 +205,7 @@ def oracle(case, obs):
         want_flags, want_bytes, want_outs = "", b"", []
         for e in case["es"]:
             try:
-                want_bytes += ref_encode(to_py(e), case["pb"])
+                want_bytes += ref_encode(to_py(e), case["pb"], lim)
                 want_flags += "A"
                 want_outs.append(show_case_expr(e))
             except OverflowError:
@@ -219,7 +224,7 @@ def oracle(case, obs):
         return None
     if k == "raw":
         raw = bytes.fromhex(case["data"])
-        whole = _feed(case["pb"], [raw] if raw else [])
+        whole = _feed(case["pb"], [raw] if raw else [], lim)
         if obs != whole:
             return Failure(case, f"segmentation changes the result: split {obs[:100]} vs whole {whole[:100]}", "split-differs")
         # the verdict must not depend on the segmentation at all: also cut right after the first element's header
@@ -231,7 +236,7 @@ def oracle(case, obs):
         if len(raw) <= 600:
             alts.append(chunks([1] * len(raw), raw))
         for alt in alts:
-            other = _feed(case["pb"], alt)
+            other = _feed(case["pb"], alt, lim)
             if other != whole:
                 return Failure(case, f"segmentation changes the result: whole {whole[:80]} vs pieces of "
                                      f"{[len(c) for c in alt][:6]} {other[:80]}", "split-differs-whole")
@@ -243,9 +248,9 @@ def oracle(case, obs):
         n = 0
         while n < len(d) and d[n] < 0x80:
             n += 1
-        if n > 64 and not obs.endswith("|BananaError"):
+        if n > lim and not obs.endswith("|BananaError"):
             return Failure(case, "a prefix of more than 64 bytes was not refused", "long-prefix-accepted")
-        if n <= 64 and n < len(d) and d[n] in (0x80, 0x82):
+        if n <= lim and n < len(d) and d[n] in (0x80, 0x82):
             v = sum(c * 128 ** i for i, c in enumerate(d[:n]))
             if v > SIZE_LIMIT and not obs.endswith("|BananaError"):
                 return Failure(case, "a list/string length above SIZE_LIMIT was not refused", "long-length-accepted")
@@ -389,8 +394,39 @@ def _refused(e) -> bool:
         return True
 
 
+LIMITS = [1, 2, 3, 4, 5, 9, 10, 64]
+
+
+def limit_family(rng, per_limit):
+    """the prefix limit as a case parameter, the same on the encoder and on the decoder: integers around
+    2^(7 lim) (the largest value lim base-128 digits can carry) and around +-2^31 (INT/NEG vs LONGINT/LONGNEG),
+    alone, nested, in histories, and raw prefixes of lim / lim+1 digits; string and list lengths stay below 128^lim"""
+    out = []
+    for lim in LIMITS:
+        top = 128 ** lim
+        vals = [0, 1, -1, 127, -127, 128, -128, top - 2, top - 1, top, top + 1, -(top - 1), -top, -(top + 1),
+                2 ** 31 - 1, 2 ** 31, -2 ** 31, -2 ** 31 - 1, 2 ** 14, 2 ** 21 - 1, 2 ** 21, 2 ** 28, -2 ** 28, 2 ** 35]
+        for v in vals:
+            out.append({"kind": "rt", "lim": lim, "pb": False, "e": {"i": v}, "cuts": rng.choice([[], [1] * 12, [1]])})
+        for _ in range(per_limit):
+            v = rng.choice(vals + [rng.choice([1, -1]) * rng.getrandbits(rng.randrange(1, 7 * lim + 3))])
+            e = {"l": [{"i": rng.choice([0, 5, -3, top - 1])}, {"s": "6162"}, {"l": [{"i": v}], "t": False}], "t": False}
+            out.append({"kind": "rt", "lim": lim, "pb": rng.random() < 0.3, "e": e, "cuts": rng.choice([[], [2], [1] * 40])})
+            es = [{"i": rng.choice(vals)} if rng.random() < 0.6 else {"l": [{"i": 1}, {"i": rng.choice(vals)}], "t": False}
+                  for _ in range(3)]
+            out.append({"kind": "hist", "lim": lim, "pb": False, "es": es, "cuts": rng.choice([[], [1]])})
+        for nd in (lim - 1, lim, lim + 1):
+            if nd >= 1:
+                out.append({"kind": "raw", "lim": lim, "pb": False, "data": "01" * nd + "81", "cuts": rng.choice([[], [1]])})
+                out.append({"kind": "raw", "lim": lim, "pb": False, "data": "01" * nd, "cuts": []})
+    return out
+
+
 def corpus():
     cs = []
+    for lim in (2, 4):        # 2^(7 lim) and -2^(7 lim) need lim + 1 digits: refused; one less is sent and read back
+        for v in (128 ** lim, -(128 ** lim), 128 ** lim - 1, -(128 ** lim - 1)):
+            cs.append({"kind": "rt", "lim": lim, "pb": False, "e": {"i": v}, "cuts": []})
     # a refusal part-way through a nested structure, then a valid message on the same connection (seeded C44-B)
     cs.append({"kind": "hist", "pb": False, "cuts": [],
                "es": [{"l": [{"i": 1}, {"s": "6162"}, {"l": [{"i": 7}, {"i": LONG + 1}], "t": False}], "t": False},
@@ -464,6 +500,7 @@ def gen(rng, tier):
         except OverflowError:
             ln = 0
         cases.append({"kind": "rt", "pb": pb, "e": e, "cuts": _rand_cuts(rng, ln)})
+    cases += limit_family(rng, 2 if tier == "quick" else 40)
     for i in range(n // 3):
         cases.append(gen_history(rng, heavy=(i % 97 == 0)))
     for _ in range(n):
@@ -511,15 +548,15 @@ def to_coq(case):
     if k == "rt":
         if _size(case["e"]) > 1500:
             return None
-        return f"CRt {coq_bool(case['pb'])} {coq_sexp(case['e'])} {_cuts(case['cuts'])}"
+        return f"CRt {case.get('lim', 64)}%N {coq_bool(case['pb'])} {coq_sexp(case['e'])} {_cuts(case['cuts'])}"
     if k == "raw":
         if len(case["data"]) > 3000:
             return None
-        return f"CRaw {coq_bool(case['pb'])} {coq_bytes(bytes.fromhex(case['data']))} {_cuts(case['cuts'])}"
+        return f"CRaw {case.get('lim', 64)}%N {coq_bool(case['pb'])} {coq_bytes(bytes.fromhex(case['data']))} {_cuts(case['cuts'])}"
     if k == "hist":
         if any(_has_x(e) for e in case["es"]) or sum(_size(e) for e in case["es"]) > 1500:
             return None                 # unsupported Python types have no counterpart in the model: oracle only
-        return f"CHist {coq_bool(case['pb'])} {coq_list([coq_sexp(e) for e in case['es']], 'sexp')} {_cuts(case['cuts'])}"
+        return f"CHist {case.get('lim', 64)}%N {coq_bool(case['pb'])} {coq_list([coq_sexp(e) for e in case['es']], 'sexp')} {_cuts(case['cuts'])}"
     if k == "b128":
         return f"CB128 {case['n']}%N"
     if k == "from":
@@ -603,7 +640,10 @@ SPEC = Spec(
          "word in both dialects, NaN/inf/-0.0/denormal floats, every 2-way (thorough: 3-way) split of two structured "
          "messages incl. depth 6, random expressions depth 0-6 (tuples and lists, near-vocabulary words, strings that "
          "look like banana syntax, 127/128/129-byte strings) under random segmentations (whole, byte-wise, one cut, "
-         "Fibonacci-sized chunks), strings/lists at SIZE_LIMIT and SIZE_LIMIT+1 (oracle only); hist: 2-5 sendEncoded calls on ONE "
+         "Fibonacci-sized chunks), strings/lists at SIZE_LIMIT and SIZE_LIMIT+1 (oracle only); limit family: the prefix limit (1,2,3,4,5,9,10,64, set "
+         "with setPrefixLimit on BOTH peers) with integers around 2^(7 lim) and +-2^31, nested and in histories, and raw "
+         "prefixes of lim-1 / lim / lim+1 digits - an integer must be refused iff it needs more than lim base-128 "
+         "digits, otherwise the same-limit peer must read it back; hist: 2-5 sendEncoded calls on ONE "
          "connection, 45% of them must be refused with the offending element (int beyond +-(2^448-1), unsupported "
          "type, rarely a SIZE_LIMIT+1 string) nested 0-3 levels deep AFTER encodable siblings, checking after every "
          "call that a refusal wrote nothing and that the receiver gets exactly the accepted expressions; raw: valid "
